@@ -1110,3 +1110,36 @@ Section PacketRoundtrip.
       now rewrite dec_msg_encode.
   Qed.
 End PacketRoundtrip.
+
+(* ------------------------------------------------------------------ *)
+(* downloader deliveries                                              *)
+(* ------------------------------------------------------------------ *)
+(* Whatever a peer returns — more, fewer or other entries than requested — the
+   accepted entries are a prefix of the request, all of them matching: never more
+   than were requested, never more than were sent, nothing accepted unrequested. *)
+Theorem deliver_rule_bounded : forall pending matches a c,
+  deliver_rule pending matches = (a, c) ->
+  match pending with
+  | None => a = 0 /\ c = DlvNoFetch
+  | Some req => a <= N.of_nat req /\ a <= lenN matches /\
+                firstn (N.to_nat a) matches = repeat true (N.to_nat a) /\
+                (c = DlvOk -> a = N.min (N.of_nat req) (lenN matches)) /\
+                (c = DlvStale -> a = 0)
+  end.
+Proof.
+  intros [req|] matches a c; unfold deliver_rule.
+  2:{ intros E; injection E as <- <-. auto. }
+  assert (Hloop : forall req matches n f, deliver_loop req matches = (n, f) ->
+            (n <= req)%nat /\ (n <= length matches)%nat /\ firstn n matches = repeat true n /\
+            (f = false -> n = Nat.min req (length matches))).
+  { clear. induction req as [|r IH]; intros [|[|] t] n f; cbn [deliver_loop]; intros E;
+      try (injection E as <- <-; cbn; repeat split; auto; try lia; discriminate).
+    destruct (deliver_loop r t) as [a0 f0] eqn:El. injection E as <- <-.
+    destruct (IH t a0 f0 El) as (H1 & H2 & H3 & H4). cbn [length firstn repeat].
+    split; [lia|split; [lia|split; [now rewrite H3|intros Hf; rewrite (H4 Hf); lia]]]. }
+  destruct (deliver_loop req matches) as [n f] eqn:El. destruct (Hloop _ _ _ _ El) as (H1 & H2 & H3 & H4).
+  intros E. injection E as <- <-. rewrite Nat2N.id. unfold lenN.
+  split; [lia|split; [lia|split; [assumption|split]]].
+  - destruct f; cbn [negb]; [destruct (Nat.ltb 0 n); discriminate|]. intros _. rewrite (H4 eq_refl). lia.
+  - destruct f; cbn [negb]; [|discriminate]. destruct (Nat.ltb_spec 0 n); [discriminate|]. intros _. lia.
+Qed.
